@@ -31,7 +31,7 @@ func init() {
 	register(&Property{
 		ID: "C09",
 		Explanation: "Decided: (R1) every path of the restart step (success and failure) resumes the mailbox; (R2) the termination path resumes it; (R3) the resume decision and both graceful decisions broadcast the resume command to every target along the escalation chain, after the poison message; the broadcast visits every chained context and every target exactly once; " +
-			"(R4) every decision value takes a branch (shared with C08.R4); (R5) zombie: behaviour replaced by the empty one, the restart-failure path tells nobody, a zombie passes the kill CAS, the zombie release path runs the termination cleanup; (R6) a paused mailbox neither spins nor misses the resume (C01.R7/R8). " +
+			"(R4) every decision value takes a branch (shared with C08.R4); (R5) zombie: behaviour replaced by the empty one, the restart-failure path tells nobody, a zombie passes the kill CAS, the zombie release path runs the termination cleanup; (R6) a paused mailbox neither spins nor misses the resume: the consumer exits only with the system queue observed empty after the release, re-arms only for eligible work, and Resume wakes (C01.R2/R7/R8). " +
 			"NOT decided: delivery order of the surviving queue at run time, concurrent sibling failures.",
 		Rules: []Rule{
 			{ID: "C09.R1", Min: 1, Desc: "restart step resumes on every path", Fn: c09RestartResumes},
@@ -39,7 +39,7 @@ func init() {
 			{ID: "C09.R3", Min: 5, Desc: "resume broadcast along the escalation chain, after the poison message", Fn: c09Broadcast},
 			{ID: "C09.R4", Min: 1, Desc: "every decision takes a branch", Fn: c08Exhaustive},
 			{ID: "C09.R5", Min: 4, Desc: "zombie discipline", Fn: c09Zombie},
-			{ID: "C09.R6", Min: 4, Desc: "paused mailbox neither spins nor misses the resume", Fn: func(p *Program, r *Report) { c01NoSpin(p, r); c01Resume(p, r) }},
+			{ID: "C09.R6", Min: 7, Desc: "paused mailbox neither spins nor misses the resume (a pending system message — the resume command — always re-arms)", Fn: func(p *Program, r *Report) { c01Release(p, r); c01NoSpin(p, r); c01Resume(p, r) }},
 		},
 	})
 }
